@@ -16,6 +16,7 @@ backward_pass(g, end_node)    requires: trace graph (DAG, one root, every other 
 Sums are compared as multisets of contributions (commutativity/associativity of the vspace addition is C13's business).
 """
 import itertools
+import os
 import random
 
 from vlib import stubs
@@ -274,6 +275,22 @@ def run_proof(rep, tier, which=("toposort", "backward_pass")):
                "generator output as a ghost sequence; `for` over a sequence / zip = indexed loop; tuples (v, flag) as pairs",
                "callee contracts used by backward_pass: toposort T1-T4 (proved here from its own source), add_outgrads AO-value/AO-own/AO-share (proved by E1b), node.vjp yields one cotangent per parent",
                "adjoint recurrence G = path-sum of local derivatives (lemma L2, standard, not mechanised)")
+    if tier == "thorough":
+        import subprocess, shutil, time as _t
+        from vlib.common import VERIF
+        t0 = _t.time()
+        lean = shutil.which("lean")
+        if lean:
+            p = subprocess.run([lean, os.path.join(VERIF, "lemmas", "Lemmas.lean")], capture_output=True, text=True, timeout=1800)
+            okl = p.returncode == 0 and "error" not in (p.stdout + p.stderr)
+            rep.obligation("lemmas/Lemmas.lean:L1+reach_least+reach_rank+reach_pred", okl, "lean4+mathlib", _t.time() - t0, "Lean")
+            rep.extra["lean_lemmas"] = dict(checked=okl, seconds=round(_t.time() - t0, 1), output=(p.stdout + p.stderr)[:300])
+            if not okl:
+                rep.error("lemmas/Lemmas.lean does not check: " + (p.stdout + p.stderr)[:200])
+        else:
+            rep.note("lean not found: the lemma instances stay assumptions in this run")
+    else:
+        rep.note("lemmas L1 / reach_least / reach_rank / reach_pred (lemmas/Lemmas.lean, Lean 4 + Mathlib) are re-checked in the thorough tier only (cold Mathlib import ~2-4 min)")
     jobs = [("toposort", U.toposort, inv_toposort, FN_T, ("toposort",)), ("backward_pass", C.backward_pass, inv_backward, FN_B, ("backward",))]
     budget = 15000 if tier == "quick" else 60000
     for key, fn, SP, FN, bwhat in jobs:
